@@ -17,6 +17,8 @@ structure Layout where
   /-- placeholders in the strings of the model (`$S`, `$T`) ↦ the real directory -/
   subst : List (Str × Str)
   flavor : Str
+  /-- products declared under another flavor (`-f generic`, found through the fallback flavors): name ↦ flavor -/
+  flavors : List (Name × Str) := []
 
 /-- `str.upper()` on ASCII -/
 def upper (s : Str) : Str := s.map fun c => if 97 ≤ c ∧ c ≤ 122 then c - 32 else c
@@ -51,7 +53,7 @@ def sZ : Str := [32, 45, 90, 32]                   -- " -Z "
 
 /-- `"%s %s -f %s -Z %s" % (name, version, flavor, encodePath(stackRoot))` -/
 def recValue (L : Layout) (n : Name) (v : Ver) : Str :=
-  n ++ [32] ++ v.1 ++ sF ++ L.flavor ++ sZ ++ encodePath (L.roots.getD v.2 [])
+  n ++ [32] ++ v.1 ++ sF ++ (aget L.flavors n).getD L.flavor ++ sZ ++ encodePath (L.roots.getD v.2 [])
 
 def toShell (db : Db) (L : Layout) : Setup.Cmd → Option ShellEmit.Cmd
   | .exportRec n v => some (.setVar (ShellEmit.sSETUP_ ++ upper n) (recValue L n v))
